@@ -18,11 +18,11 @@ import (
 
 // body/state validity classes of a generated block
 const (
-	bvGood      = 0
-	bvTxRoot    = 1 // body does not match header.TxHash            -> ValidateBody fails
-	bvRootKnown = 2 // header.Root replaced by the parent's root    -> ValidateState fails; the claimed root is a state that exists
+	bvGood       = 0
+	bvTxRoot     = 1 // body does not match header.TxHash            -> ValidateBody fails
+	bvRootKnown  = 2 // header.Root replaced by the parent's root    -> ValidateState fails; the claimed root is a state that exists
 	bvRootAbsent = 3 // header.Root replaced by a root nobody has    -> ValidateState fails
-	bvGasUsed   = 4 // header.GasUsed off by one                    -> ValidateState fails
+	bvGasUsed    = 4 // header.GasUsed off by one                    -> ValidateState fails
 )
 
 // BlockSpec describes one block of a tree; Parent is an index into the tree
@@ -58,10 +58,10 @@ type world struct {
 	flags   map[common.Hash]int
 	proc    core.Processor
 
-	blockID map[common.Hash]uint64 // genesis = 1, tree index i -> i+2, further blocks follow
-	byID    map[uint64]*types.Block
-	rootID  map[common.Hash]uint64
-	txID    map[common.Hash]uint64
+	blockID              map[common.Hash]uint64 // genesis = 1, tree index i -> i+2, further blocks follow
+	byID                 map[uint64]*types.Block
+	rootID               map[common.Hash]uint64
+	txID                 map[common.Hash]uint64
 	valRoot, stakingRoot common.Hash
 }
 
